@@ -3,7 +3,21 @@ import GN.Url.ObjLemmas
 import GN.Url.PathLemmas
 
 /-!
-# C13: "href can be parsed again" — counterexample to the full statement and the partial results
+# C13: "href can be parsed again by `new URL()` and yields the same href" — proof
+
+`reparseStable : ReparseStable` (last theorem of the file) holds for the model with the repaired `protocol` setter.
+Before that repair the statement was false (`u.protocol = "/x"` on a non-special URL stored the scheme `/x`; the state
+is kept below as `cexUrl0`/`cex_step_ignored`, which now shows that the assignment is ignored).
+
+Structure of the proof:
+* `Lay`/`reparse`/`Parse_str`/`reparse_str`: how `URL.String` lays an `href` out and that `Parse` cuts it at exactly
+  those places (`reparseStable_partial_layout` is the statement for one state under these layout conditions);
+* `NormOK`/`normalize_reparse`: re-normalising the re-parsed URL changes nothing that is printed;
+* invariants of reachable states: `RInv` (lower-case scheme, opaque part, `cleanPath` fixed point via `cleanPath_idem`,
+  host decomposition `HostInv2` incl. idempotence of `Idna.toASCII`, `idna_idem`), `RawOK` (stored raw path),
+  `scheme_reach` (scheme syntax), `LegalH` (bytes of a host that is not bracketed), `ZH`/`B128` (bracketed hosts,
+  with or without zone id);
+* the intermediate partial results (`reparseStable_partial_*`) are kept: they are corollaries with explicit hypotheses.
 -/
 
 namespace GN.Url.Obj
@@ -4761,5 +4775,920 @@ theorem reparseStable_partial_noZone (st : St) (hr : Reach st)
       (by rw [a]; exact hb)
     unfold RawOK; rw [e]; exact raw_reach st hr
   · exact normOK_of_rinv _ hi
+
+/-! ## bracketed hosts with a zone id -/
+
+/-- a byte `parseHost` can produce inside a zone id -/
+def zoneB (c : UInt8) : Bool := legalB c || c == 32
+
+theorem shouldEscape_zone_fin : ∀ n : Fin 256, shouldEscape (UInt8.ofNat n.val) .zone = shouldEscape (UInt8.ofNat n.val) .host := by
+  decide +kernel
+
+theorem shouldEscape_zone (c : UInt8) : shouldEscape c .zone = shouldEscape c .host := by
+  have := byte_all (fun c => shouldEscape c .zone == shouldEscape c .host)
+    (by intro n; rw [shouldEscape_zone_fin n]; simp) c
+  simpa using this
+
+theorem ok_zone_pct (x y : UInt8) (rest : Bytes) :
+    unescapeOk .zone (37 :: x :: y :: rest) =
+      (isHex x && isHex y &&
+        !(!(x == 50 && y == 53) && (unhex x <<< 4 ||| unhex y) != 32 && shouldEscape (unhex x <<< 4 ||| unhex y) .host) &&
+        unescapeOk .zone rest) := by
+  rw [unescapeOk]
+  have h1 : (Mode.zone == Mode.host) = false := rfl
+  have h2 : (Mode.zone == Mode.zone) = true := rfl
+  simp only [h1, h2, Bool.true_and, Bool.false_and, Bool.false_eq_true, if_false]
+  generalize (!(x == 50 && y == 53) && (unhex x <<< 4 ||| unhex y) != 32 && shouldEscape (unhex x <<< 4 ||| unhex y) .host) = c
+  cases isHex x <;> cases isHex y <;> cases c <;> simp
+
+theorem ok_zone_cons (c : UInt8) (rest : Bytes) (h1 : c ≠ 37) (h2 : shouldEscape c .host = false ∨ c ≥ 128 ∨ c = 43) :
+    unescapeOk .zone (c :: rest) = unescapeOk .zone rest := by
+  have hz := shouldEscape_zone c
+  rw [unescapeOk.eq_def]
+  split
+  · simp_all
+  · simp_all
+  · simp_all
+  · next c' rest' _ _ heq =>
+    simp only [List.cons.injEq] at heq
+    obtain ⟨e1, e2⟩ := heq
+    subst e1; subst e2
+    have : (c != 43 && (Mode.zone == Mode.host || Mode.zone == Mode.zone) && decide (c < 128) && shouldEscape c .zone) = false := by
+      rw [hz]
+      rcases h2 with h | h | h
+      · simp [h]
+      · have : ¬ c < 128 := by simpa [UInt8.not_lt] using h
+        simp [this]
+      · simp [h]
+    rw [this]; simp
+
+/-- zone-mode: escaping (as `URL.String` does, in host mode) then unescaping one byte -/
+def escZoneOK (c : UInt8) : Bool :=
+  !(zoneB c && c < 128) ||
+  (if shouldEscape c .host then
+    isHex (hexU (c >>> 4)) && isHex (hexU (c &&& 15)) &&
+      !(!(hexU (c >>> 4) == 50 && hexU (c &&& 15) == 53) &&
+          (unhex (hexU (c >>> 4)) <<< 4 ||| unhex (hexU (c &&& 15))) != 32 &&
+          shouldEscape (unhex (hexU (c >>> 4)) <<< 4 ||| unhex (hexU (c &&& 15))) .host) &&
+      (unhex (hexU (c >>> 4)) <<< 4 ||| unhex (hexU (c &&& 15))) == c
+   else c != 37)
+
+theorem escZoneOK_fin : ∀ n : Fin 256, escZoneOK (UInt8.ofNat n.val) = true := by decide +kernel
+
+theorem unescape_escByte_zone (c : UInt8) (hc : zoneB c = true) (h128 : c < 128) (rest : Bytes) :
+    unescapeOk .zone (Net.escByte .host c ++ rest) = unescapeOk .zone rest ∧
+    unescapeRaw .zone (Net.escByte .host c ++ rest) = c :: unescapeRaw .zone rest := by
+  have hk := byte_all escZoneOK escZoneOK_fin c
+  unfold escZoneOK at hk
+  have h128' : decide (c < 128) = true := by simpa using h128
+  rw [hc, h128'] at hk
+  simp only [Bool.and_self, Bool.not_true, Bool.false_or] at hk
+  unfold Net.escByte
+  have hq : (Mode.host == Mode.queryComponent) = false := rfl
+  simp only [hq, Bool.and_false, Bool.false_eq_true, if_false]
+  cases hs : shouldEscape c .host with
+  | true =>
+    simp only [hs, if_true, Bool.and_eq_true, beq_iff_eq] at hk
+    simp only [if_true, List.cons_append, List.nil_append]
+    rw [ok_zone_pct, raw_pct]
+    obtain ⟨⟨⟨h1, h2⟩, h3⟩, h4⟩ := hk
+    rw [h1, h2, h3, h4]
+    simp
+  | false =>
+    simp only [hs, Bool.false_eq_true, if_false, bne_iff_ne, ne_eq] at hk
+    simp only [Bool.false_eq_true, if_false, List.cons_append, List.nil_append]
+    refine ⟨ok_zone_cons c rest hk (Or.inl hs), ?_⟩
+    rw [raw_cons_ne _ c rest hk]
+    unfold plusByte
+    split
+    · next e => subst e; rfl
+    · rfl
+
+theorem unescape_escape_zone (q : Bytes) (hq : q.all zoneB = true) (h128 : q.all (· < 128) = true) :
+    unescapeOk .zone (Net.escape .host q) = true ∧ unescapeRaw .zone (Net.escape .host q) = q := by
+  induction q with
+  | nil => simp [Net.escape, unescapeOk, unescapeRaw]
+  | cons c t ih =>
+    simp only [List.all_cons, Bool.and_eq_true, decide_eq_true_eq] at hq h128
+    simp only [Net.escape, List.flatMap_cons] at *
+    obtain ⟨e1, e2⟩ := unescape_escByte_zone c hq.1 h128.1 (List.flatMap (Net.escByte .host) t)
+    have := ih hq.2 (by simpa using h128.2)
+    rw [e1, e2, this.1, this.2]
+    exact ⟨rfl, rfl⟩
+
+theorem indexSub_go_append (c x y : UInt8) (r : Bytes) : ∀ (a : Bytes) (i : Nat), c ∉ a →
+    indexSub.go [c, x, y] (a ++ c :: x :: y :: r) i = some (i + a.length) := by
+  intro a
+  induction a with
+  | nil => intro i _; simp [indexSub.go, List.isPrefixOf]
+  | cons d t ih =>
+    intro i hd
+    have hdc : d ≠ c := by intro e; subst e; simp at hd
+    have : ([c, x, y] : Bytes).isPrefixOf (d :: (t ++ c :: x :: y :: r)) = false := by
+      simp [List.isPrefixOf]; intro e; exact absurd e.symm hdc
+    simp only [List.cons_append, indexSub.go, this, Bool.false_eq_true, if_false]
+    rw [ih (i + 1) (fun hm => hd (List.mem_cons_of_mem _ hm))]
+    simp; omega
+
+theorem indexSub_append (a r : Bytes) (h : (37 : UInt8) ∉ a) :
+    indexSub (a ++ 37 :: 50 :: 53 :: r) [37, 50, 53] = some a.length := by
+  unfold indexSub
+  rw [indexSub_go_append 37 50 53 r a 0 h]; simp
+
+theorem indexSub_go_prefix (sub : Bytes) : ∀ (s : Bytes) (i z : Nat), indexSub.go sub s i = some z →
+    i ≤ z ∧ sub.isPrefixOf (s.drop (z - i)) = true := by
+  intro s
+  induction s with
+  | nil =>
+    intro i z h
+    simp only [indexSub.go] at h
+    split at h
+    · next hs =>
+      simp only [Option.some.injEq] at h
+      subst h
+      simp only [beq_iff_eq] at hs
+      subst hs
+      simp
+    · cases h
+  | cons c t ih =>
+    intro i z h
+    simp only [indexSub.go] at h
+    split at h
+    · next hp =>
+      simp only [Option.some.injEq] at h
+      subst h
+      simpa using hp
+    · obtain ⟨h1, h2⟩ := ih (i + 1) z h
+      refine ⟨by omega, ?_⟩
+      have : z - i = (z - (i + 1)) + 1 := by omega
+      rw [this, List.drop_succ_cons]; exact h2
+
+theorem indexSub_prefix (s sub : Bytes) (z : Nat) (h : indexSub s sub = some z) : sub.isPrefixOf (s.drop z) = true := by
+  unfold indexSub at h
+  have := (indexSub_go_prefix sub s 0 z h).2
+  simpa using this
+
+def ZShape (h : Bytes) : Prop :=
+  ∃ p q opt, h = p ++ q ++ 93 :: opt ∧ validOptionalPort opt = true ∧ p.all legalB = true ∧ (37 : UInt8) ∉ p ∧
+    (q = [] ∨ ∃ t, q = 37 :: t) ∧ q.all zoneB = true
+
+/-- bracketed hosts have the shape `[` address `%` zone `]` port -/
+def ZH (h : Bytes) : Prop := hasPrefix h [91] = true → ZShape h
+
+theorem zoneB_of_legal (c : UInt8) (h : legalB c = true) : zoneB c = true := by simp [zoneB, h]
+
+theorem zshape_of_parts (h1 h2 opt : Bytes) (ho : validOptionalPort opt = true) (hl1 : h1.all legalB = true)
+    (hl2 : h2.all zoneB = true) (hh2 : h2 = [] ∨ ∃ t, h2 = 37 :: t) : ZShape (h1 ++ h2 ++ 93 :: opt) := by
+  by_cases hm : (37 : UInt8) ∈ h1
+  · obtain ⟨a, b, e, ha⟩ := first_occurrence h1 37 hm
+    refine ⟨a, 37 :: b ++ h2, opt, by rw [e]; simp, ho, ?_, ha, Or.inr ⟨_, rfl⟩, ?_⟩
+    · rw [e, List.all_append] at hl1
+      simp only [Bool.and_eq_true] at hl1; exact hl1.1
+    · rw [e, List.all_append] at hl1
+      simp only [Bool.and_eq_true, List.all_cons] at hl1
+      simp only [List.cons_append, List.all_cons, List.all_append, Bool.and_eq_true]
+      refine ⟨by decide, ?_, hl2⟩
+      rw [List.all_eq_true]
+      intro c hc
+      exact zoneB_of_legal c (List.all_eq_true.1 hl1.2.2 c hc)
+  · exact ⟨h1, h2, opt, rfl, ho, hl1, hm, hh2, hl2⟩
+
+theorem ok_split_host_aux (b : UInt8) (B : Bytes) (hb : isHex b = false) : ∀ (n : Nat) (A : Bytes), A.length ≤ n →
+    unescapeOk .host (A ++ b :: B) = true → unescapeOk .host A = true := by
+  intro n
+  induction n with
+  | zero =>
+    intro A hA _
+    have : A = [] := List.eq_nil_of_length_eq_zero (by omega)
+    subst this; simp [unescapeOk]
+  | succ n ih =>
+    intro A hA hok
+    cases A with
+    | nil => simp [unescapeOk]
+    | cons c A' =>
+      by_cases hc : c = 37
+      · subst hc
+        cases A' with
+        | nil =>
+          exfalso
+          cases B with
+          | nil => simp [ok_pct_short2] at hok
+          | cons y B' =>
+            have := (ok_pct .host b y B' hok).1
+            rw [hb] at this; cases this
+        | cons x A'' =>
+          cases A'' with
+          | nil =>
+            exfalso
+            have := (ok_pct .host x b B hok).2.1
+            rw [hb] at this; cases this
+          | cons y A3 =>
+            simp only [List.cons_append] at hok
+            rw [ok_host_pct] at hok ⊢
+            simp only [Bool.and_eq_true] at hok ⊢
+            exact ⟨hok.1, ih A3 (by simp at hA; omega) hok.2⟩
+      · simp only [List.cons_append] at hok
+        have hrest := ok_cons_ne .host c _ hc hok
+        have hleg := ok_host_cons_legal c _ hc hok
+        have hA' := ih A' (by simp at hA; omega) hrest
+        -- the check on `c` does not depend on what follows
+        rw [unescapeOk.eq_def] at hok ⊢
+        split at hok
+        · simp_all
+        · simp_all
+        · simp_all
+        · next c' rest' _ _ heq =>
+          simp only [List.cons.injEq] at heq
+          obtain ⟨e1, e2⟩ := heq
+          subst e1
+          split at hok
+          · cases hok
+          · next hcond =>
+            split
+            · simp_all
+            · simp_all
+            · simp_all
+            · next c'' rest'' _ _ heq' =>
+              simp only [List.cons.injEq] at heq'
+              obtain ⟨e3, e4⟩ := heq'
+              subst e3; subst e4
+              rw [if_neg hcond]; exact hA'
+
+theorem ok_split_host (A : Bytes) (b : UInt8) (B : Bytes) (hb : isHex b = false)
+    (h : unescapeOk .host (A ++ b :: B) = true) : unescapeOk .host A = true :=
+  ok_split_host_aux b B hb A.length A (Nat.le_refl _) h
+
+theorem ok_zone_cons_legal (c : UInt8) (t : Bytes) (hc : c ≠ 37) (hok : unescapeOk .zone (c :: t) = true) :
+    legalB c = true := by
+  cases hl : legalB c with
+  | true => rfl
+  | false =>
+    exfalso
+    unfold legalB at hl
+    simp only [Bool.or_eq_false_iff, Bool.not_eq_false', decide_eq_false_iff_not, beq_eq_false_iff_ne] at hl
+    obtain ⟨⟨h1, h2⟩, _⟩ := hl
+    have h43 : c ≠ 43 := by intro e; subst e; revert h1; decide
+    have h128 : c < 128 := by simpa [UInt8.not_le] using h2
+    have hz := shouldEscape_zone c
+    rw [unescapeOk.eq_def] at hok
+    split at hok
+    · simp_all
+    · simp_all
+    · simp_all
+    · next c' rest' _ _ heq =>
+      simp only [List.cons.injEq] at heq
+      obtain ⟨e1, e2⟩ := heq
+      subst e1
+      have h43' : (c != 43) = true := by simpa using h43
+      have h128' : decide (c < 128) = true := by simpa using h128
+      simp [h43', h128', hz, h1] at hok
+
+theorem unescape_zone_legal_aux : ∀ (n : Nat) (a : Bytes), a.length ≤ n → unescapeOk .zone a = true →
+    (unescapeRaw .zone a).all zoneB = true := by
+  intro n
+  induction n with
+  | zero =>
+    intro a ha _
+    have : a = [] := List.eq_nil_of_length_eq_zero (by omega)
+    subst this; simp [unescapeRaw]
+  | succ n ih =>
+    intro a ha hok
+    cases a with
+    | nil => simp [unescapeRaw]
+    | cons c t =>
+      by_cases hc : c = 37
+      · subst hc
+        cases t with
+        | nil => simp [ok_pct_short1] at hok
+        | cons x t' =>
+          cases t' with
+          | nil => simp [ok_pct_short2] at hok
+          | cons y t'' =>
+            rw [ok_zone_pct] at hok
+            simp only [Bool.and_eq_true, Bool.not_eq_true'] at hok
+            obtain ⟨⟨⟨_, _⟩, hcond⟩, hrest⟩ := hok
+            rw [raw_pct]
+            simp only [List.all_cons, Bool.and_eq_true]
+            refine ⟨?_, ih t'' (by simp at ha; omega) hrest⟩
+            unfold zoneB legalB
+            by_cases h25 : (x == 50 && y == 53) = true
+            · simp only [Bool.and_eq_true, beq_iff_eq] at h25
+              obtain ⟨hx, hy⟩ := h25
+              subst hx; subst hy; decide
+            · have h25' : (x == 50 && y == 53) = false := by simpa using h25
+              rw [h25'] at hcond
+              simp only [Bool.not_false, Bool.true_and, Bool.and_eq_false_iff, bne_eq_false_iff_eq] at hcond
+              rcases hcond with h | h
+              · rw [h]; decide
+              · simp [h]
+      · have hok' := ok_cons_ne _ c t hc hok
+        rw [raw_cons_ne _ c t hc]
+        simp only [List.all_cons, Bool.and_eq_true]
+        refine ⟨?_, ih t (by simp at ha; omega) hok'⟩
+        have hb := ok_zone_cons_legal c t hc hok
+        unfold plusByte
+        split
+        · next e => subst e; decide
+        · exact zoneB_of_legal c hb
+
+theorem unescape_zone_legal (a r : Bytes) (h : Net.unescape .zone a = some r) : r.all zoneB = true := by
+  obtain ⟨hok, e⟩ := unescape_some _ _ _ h
+  rw [e]; exact unescape_zone_legal_aux a.length a (Nat.le_refl _) hok
+
+theorem parseHost_ZH (a r : Bytes) (h : parseHost a = some r) : ZH r := by
+  intro hrp
+  unfold parseHost at h
+  split at h
+  · next hpre =>
+    rcases lastIndexByte_cases a 93 with ⟨_, e⟩ | ⟨A, opt, ea, _, e⟩
+    · rw [e] at h; cases h
+    · rw [e] at h
+      simp only at h
+      have hdrop : a.drop (A.length + 1) = opt := by rw [ea]; simp
+      have hdrop' : a.drop A.length = 93 :: opt := by rw [ea]; simp
+      have htake : a.take A.length = A := by rw [ea]; simp
+      rw [hdrop, hdrop', htake] at h
+      split at h
+      · cases h
+      · next hv =>
+        have hv : validOptionalPort opt = true := by simpa using hv
+        have h3 : unescapeRaw .host (93 :: opt) = 93 :: opt := raw_host_plain _ (opt_no_percent opt hv)
+        split at h
+        · next zone hz =>
+          split at h
+          · next h1 h2 h3' hu1 hu2 hu3 =>
+            cases h
+            have e3 := (unescape_some _ _ _ hu3).2
+            rw [h3] at e3
+            subst e3
+            have hl1 := unescape_host_legal _ _ hu1
+            have hl2 := unescape_zone_legal _ _ hu2
+            have hpre2 := indexSub_prefix A _ zone hz
+            have hh2 : h2 = [] ∨ ∃ t, h2 = 37 :: t := by
+              right
+              obtain ⟨r', er⟩ := List.isPrefixOf_iff_prefix.1 hpre2
+              have e2 := (unescape_some _ _ _ hu2).2
+              rw [← er] at e2
+              simp only [List.cons_append, List.nil_append] at e2
+              rw [raw_pct] at e2
+              exact ⟨_, by rw [e2]; rfl⟩
+            exact zshape_of_parts h1 h2 opt hv hl1 hl2 hh2
+          · cases h
+        · obtain ⟨hok, hr⟩ := unescape_some _ _ _ h
+          subst hr
+          rw [ea] at hok ⊢
+          rw [raw_append .host A 93 opt (by decide) hok, h3]
+          have hokA := ok_split_host A 93 opt (by decide) hok
+          have hl1 := unescape_host_legal_aux A.length A (Nat.le_refl _) hokA
+          have := zshape_of_parts (unescapeRaw .host A) [] opt hv hl1 rfl (Or.inl rfl)
+          simpa using this
+  · next hpre =>
+    exfalso
+    have hpre : hasPrefix a [91] = false := by simpa using hpre
+    have key : ∀ r, Net.unescape .host a = some r → hasPrefix r [91] = false := by
+      intro r hr
+      obtain ⟨hok, e⟩ := unescape_some _ _ _ hr
+      subst e
+      exact raw_host_first a hpre hok
+    split at h
+    · split at h
+      · cases h
+      · rw [key r h] at hrp; cases hrp
+    · rw [key r h] at hrp; cases hrp
+
+theorem ZH_nil : ZH [] := fun h => by simp [hasPrefix] at h
+
+theorem Parse_ZH (raw : Bytes) (p : URL) (h : Net.Parse raw = some p) : ZH p.host :=
+  Parse_pred ZH ZH_nil parseHost_ZH raw p h
+
+theorem ParseRequestURI_ZH (raw : Bytes) (p : URL) (h : ParseRequestURI raw = some p) : ZH p.host :=
+  ParseRequestURI_pred ZH ZH_nil parseHost_ZH raw p h
+
+theorem simple_of_legal (p : Bytes) (hl : p.all legalB = true) (h37 : (37 : UInt8) ∉ p) (h128 : p.all (· < 128) = true) :
+    HostSimple p := by
+  intro c hc
+  have h1 := List.all_eq_true.1 hl c hc
+  have h2 : c < 128 := by simpa using List.all_eq_true.1 h128 c hc
+  refine ⟨h2, ?_⟩
+  unfold legalB at h1
+  simp only [Bool.or_eq_true, Bool.not_eq_true', decide_eq_true_eq, beq_iff_eq] at h1
+  rcases h1 with (h | h) | h
+  · exact h
+  · exact absurd h2 (by simpa [UInt8.not_lt] using h)
+  · subst h; exact absurd hc h37
+
+theorem hostSimple_append (a b : Bytes) (ha : HostSimple a) (hb : HostSimple b) : HostSimple (a ++ b) := by
+  intro c hc
+  rcases List.mem_append.1 hc with h | h
+  · exact ha c h
+  · exact hb c h
+
+theorem bracket_opt_simple (opt : Bytes) (h : validOptionalPort opt = true) : HostSimple (93 :: opt) := by
+  intro c hc
+  rcases List.mem_cons.1 hc with e | h'
+  · subst e; exact ⟨by decide, by decide⟩
+  · exact opt_simple opt h c h'
+
+/-- a bracketed host with (or without) a zone id survives `escape` + `parseHost` -/
+theorem parseHost_zone (h : Bytes) (hp : hasPrefix h [91] = true) (hz : ZShape h) (h128 : h.all (· < 128) = true) :
+    parseHost (Net.escape .host h) = some h := by
+  obtain ⟨p, q, opt, e, ho, hlp, h37, hq, hlq⟩ := hz
+  have h128p : p.all (· < 128) = true := by
+    rw [e, List.all_append, List.all_append] at h128
+    simp only [Bool.and_eq_true] at h128; exact h128.1.1
+  have h128q : q.all (· < 128) = true := by
+    rw [e, List.all_append, List.all_append] at h128
+    simp only [Bool.and_eq_true] at h128; exact h128.1.2
+  have hsp := simple_of_legal p hlp h37 h128p
+  have hso := bracket_opt_simple opt ho
+  have hesc : Net.escape .host h = p ++ Net.escape .host q ++ 93 :: opt := by
+    rw [e, escape_append, escape_append, hostSimple_escape p hsp, hostSimple_escape _ hso]
+  -- `p` begins with `[`
+  have hp' : ∃ p', p = 91 :: p' := by
+    obtain ⟨r, er⟩ := (hasPrefix_iff _ _).1 hp
+    cases p with
+    | nil =>
+      exfalso
+      rcases hq with hq | ⟨t, hq⟩
+      · subst hq; rw [e] at er; simp at er
+      · subst hq; rw [e] at er; simp at er
+    | cons x p' =>
+      rw [e] at er
+      simp only [List.cons_append, List.nil_append, List.cons.injEq] at er
+      exact ⟨p', by rw [er.1]⟩
+  obtain ⟨p', ep'⟩ := hp'
+  have hpre : hasPrefix (Net.escape .host h) [91] = true := by
+    rw [hesc, ep']; exact (hasPrefix_iff _ _).2 ⟨_, rfl⟩
+  have h93 : (93 : UInt8) ∉ opt := by
+    rcases validOptionalPort_cases opt ho with e1 | ⟨ds, e1, hds⟩
+    · subst e1; simp
+    · subst e1
+      intro hm
+      rcases List.mem_cons.1 hm with h' | h'
+      · revert h'; decide
+      · have := List.all_eq_true.1 hds 93 h'
+        revert this; decide
+  have hl : lastIndexByte (Net.escape .host h) 93 = some (p ++ Net.escape .host q).length := by
+    rw [hesc]; exact lastIndexByte_append _ opt 93 h93
+  unfold parseHost
+  rw [hpre, hl]
+  simp only [if_true]
+  have hdrop : (Net.escape .host h).drop ((p ++ Net.escape .host q).length + 1) = opt := by
+    rw [hesc]
+    rw [show p ++ Net.escape .host q ++ 93 :: opt = (p ++ Net.escape .host q ++ [93]) ++ opt by simp]
+    rw [show (p ++ Net.escape .host q).length + 1 = (p ++ Net.escape .host q ++ [93]).length by simp; omega]
+    exact List.drop_left' rfl
+  have hdrop' : (Net.escape .host h).drop (p ++ Net.escape .host q).length = 93 :: opt := by
+    rw [hesc]; exact List.drop_left' rfl
+  have htake : (Net.escape .host h).take (p ++ Net.escape .host q).length = p ++ Net.escape .host q := by
+    rw [hesc]; exact List.take_left' rfl
+  rw [hdrop, ho, htake]
+  simp only [Bool.not_true, Bool.false_eq_true, if_false]
+  rcases hq with hq | ⟨t, hq⟩
+  · -- no zone id
+    subst hq
+    have hsimple : HostSimple h := by
+      rw [e]; simp only [List.append_nil]; exact hostSimple_append _ _ hsp hso
+    simp only [Net.escape, List.flatMap_nil, List.append_nil]
+    rw [indexSub_none p h37]
+    simp only
+    have := hostSimple_unescape h hsimple
+    rw [← hostSimple_escape h hsimple] at this
+    rw [show List.flatMap (Net.escByte .host) h = Net.escape .host h from rfl]
+    rw [hostSimple_escape h hsimple] at this ⊢
+    exact this
+  · subst hq
+    have heq : Net.escape .host (37 :: t) = 37 :: 50 :: 53 :: Net.escape .host t := by
+      simp only [Net.escape, List.flatMap_cons]
+      have : Net.escByte .host 37 = [37, 50, 53] := by decide
+      rw [this]; rfl
+    rw [heq, indexSub_append p _ h37]
+    simp only
+    have ht1 : (Net.escape .host h).take p.length = p := by
+      rw [hesc, List.append_assoc]; exact List.take_left' rfl
+    have hd1 : (p ++ 37 :: 50 :: 53 :: Net.escape .host t).drop p.length = 37 :: 50 :: 53 :: Net.escape .host t :=
+      List.drop_left' rfl
+    rw [ht1, hd1, ← heq, hdrop']
+    have u1 : Net.unescape .host p = some p := hostSimple_unescape p hsp
+    have u2 : Net.unescape .zone (Net.escape .host (37 :: t)) = some (37 :: t) := by
+      obtain ⟨a, b⟩ := unescape_escape_zone (37 :: t) hlq h128q
+      unfold Net.unescape; simp [a, b]
+    have u3 : Net.unescape .host (93 :: opt) = some (93 :: opt) := hostSimple_unescape _ hso
+    rw [u1, u2, u3]
+    simp only [e, List.append_assoc, List.cons_append]
+
+/-! ### the invariant for bracketed hosts -/
+
+def B128 (h : Bytes) : Prop := hasPrefix h [91] = true → h.all (· < 128) = true
+
+theorem lower_zone_fin : ∀ n : Fin 256,
+    ((!zoneB (UInt8.ofNat n.val) || zoneB (lowerByte (UInt8.ofNat n.val))) &&
+     (!decide (UInt8.ofNat n.val < 128) || decide (lowerByte (UInt8.ofNat n.val) < 128)) &&
+     ((lowerByte (UInt8.ofNat n.val) == 37) == (UInt8.ofNat n.val == 37)) &&
+     ((lowerByte (UInt8.ofNat n.val) == 93) == (UInt8.ofNat n.val == 93))) = true := by decide +kernel
+
+theorem lower_zone (c : UInt8) : (zoneB c = true → zoneB (lowerByte c) = true) ∧ (c < 128 → lowerByte c < 128) ∧
+    (lowerByte c = 37 ↔ c = 37) ∧ (lowerByte c = 93 ↔ c = 93) := by
+  have := byte_all (fun c => (!zoneB c || zoneB (lowerByte c)) && (!decide (c < 128) || decide (lowerByte c < 128)) &&
+     ((lowerByte c == 37) == (c == 37)) && ((lowerByte c == 93) == (c == 93))) lower_zone_fin c
+  simp only [Bool.and_eq_true, Bool.or_eq_true, Bool.not_eq_true', decide_eq_true_eq, decide_eq_false_iff_not,
+    beq_iff_eq] at this
+  obtain ⟨⟨⟨h1, h2⟩, h3⟩, h4⟩ := this
+  refine ⟨fun h => ?_, fun h => ?_, ?_, ?_⟩
+  · rcases h1 with h0 | h0
+    · rw [h] at h0; cases h0
+    · exact h0
+  · rcases h2 with h0 | h0
+    · exact absurd h h0
+    · exact h0
+  · constructor
+    · intro e; simpa [e] using h3
+    · intro e; simpa [e] using h3
+  · constructor
+    · intro e; simpa [e] using h4
+    · intro e; simpa [e] using h4
+
+theorem zshape_goodW (p q : Bytes) (hp : hasPrefix (p ++ q ++ [93]) [91] = true) : GoodW (p ++ q ++ [93]) :=
+  Or.inr ⟨hp, by simp⟩
+
+theorem zshape_w_prefix (p q opt : Bytes) (_ho : validOptionalPort opt = true)
+    (hp : hasPrefix (p ++ q ++ 93 :: opt) [91] = true) : hasPrefix (p ++ q ++ [93]) [91] = true := by
+  obtain ⟨r, er⟩ := (hasPrefix_iff _ _).1 hp
+  cases hpq : p ++ q with
+  | nil => rw [hpq] at er; simp at er
+  | cons x t =>
+    rw [hpq] at er
+    simp only [List.cons_append, List.nil_append, List.cons.injEq] at er
+    rw [er.1]; exact (hasPrefix_iff _ _).2 ⟨t ++ [93], rfl⟩
+
+theorem zshape_lower (p q opt : Bytes) (ho : validOptionalPort opt = true) (hlp : p.all legalB = true)
+    (h37 : (37 : UInt8) ∉ p) (hq : q = [] ∨ ∃ t, q = 37 :: t) (hlq : q.all zoneB = true) :
+    ZShape (toLowerAscii (p ++ q ++ 93 :: opt)) := by
+  refine ⟨toLowerAscii p, toLowerAscii q, opt, ?_, ho, ?_, ?_, ?_, ?_⟩
+  · rw [toLowerAscii_eq, List.map_append, List.map_append, List.map_cons, ← toLowerAscii_eq, ← toLowerAscii_eq,
+      ← toLowerAscii_eq, toLowerAscii_opt opt ho]
+    rfl
+  · rw [toLowerAscii_eq, List.all_map, List.all_eq_true]
+    intro c hc
+    exact legalB_lowerByte c (List.all_eq_true.1 hlp c hc)
+  · rw [toLowerAscii_eq]
+    intro hm
+    obtain ⟨c, hc, e⟩ := List.mem_map.1 hm
+    rw [(lower_zone c).2.2.1] at e
+    subst e; exact h37 hc
+  · rcases hq with e | ⟨t, e⟩
+    · left; rw [e]; rfl
+    · right; rw [e]; exact ⟨toLowerAscii t, rfl⟩
+  · rw [toLowerAscii_eq, List.all_map, List.all_eq_true]
+    intro c hc
+    exact (lower_zone c).1 (List.all_eq_true.1 hlq c hc)
+
+theorem trim_prefix_rev (h : Bytes) (hp : hasPrefix (trimSuffix h [58]) [91] = true) : hasPrefix h [91] = true := by
+  rcases trimSuffix_cases h [58] with ⟨_, e⟩ | ⟨_, e⟩
+  · rw [e]; exact hasPrefix_append_left _ _ hp
+  · rw [e] at hp; exact hp
+
+theorem splitHostPort_fst_prefix (h : Bytes) (hp : hasPrefix h [91] = false) : hasPrefix (splitHostPort h).1 [91] = false := by
+  have take_np : ∀ k, hasPrefix (h.take k) [91] = false := by
+    intro k
+    cases hq : hasPrefix (h.take k) [91] with
+    | false => rfl
+    | true =>
+      have : hasPrefix (h.take k ++ h.drop k) [91] = true := hasPrefix_append_left _ _ hq
+      rw [List.take_append_drop, hp] at this; cases this
+  rcases lastIndexByte_cases h 58 with ⟨_, e⟩ | ⟨a, b, eh, _, e⟩
+  · unfold splitHostPort
+    rw [e]
+    simp only [hp, Bool.false_and, Bool.false_eq_true, if_false]
+  · unfold splitHostPort
+    rw [e]
+    simp only
+    cases hv : validOptionalPort (List.drop a.length h) with
+    | true => simp only [if_true, take_np, Bool.false_and, Bool.false_eq_true, if_false]
+    | false => simp only [Bool.false_eq_true, if_false, hp, Bool.false_and]
+
+theorem prefix_append_colon (ch x : Bytes) (h : hasPrefix ch [91] = false) : hasPrefix (ch ++ 58 :: x) [91] = false := by
+  cases ch with
+  | nil => simp [hasPrefix, List.isPrefixOf]
+  | cons c t => simp only [List.cons_append]; rw [hasPrefix_cons1] at h ⊢; exact h
+
+theorem fixHost_Z (s host h' : Bytes) (hf : fixHost s host = .ok h') (hz : ZH host) : ZH h' ∧ B128 h' := by
+  unfold fixHost at hf
+  simp only at hf
+  split at hf
+  · next hbr =>
+    split at hf
+    · next hall =>
+      cases hf
+      obtain ⟨p, q, opt, e, ho, hlp, h37, hq, hlq⟩ := hz (trim_prefix_rev host hbr)
+      have hwp := zshape_w_prefix p q opt ho (by rw [← e]; exact trim_prefix_rev host hbr)
+      obtain ⟨opt1, ht, ho1, _, _⟩ := trim_decomp (p ++ q ++ [93]) opt (zshape_goodW p q hwp) ho
+      have e1 : trimSuffix host [58] = p ++ q ++ 93 :: opt1 := by
+        rw [e, show p ++ q ++ 93 :: opt = (p ++ q ++ [93]) ++ opt by simp, ht]; simp
+      refine ⟨fun _ => ?_, fun _ => ?_⟩
+      · rw [e1]; exact zshape_lower p q opt1 ho1 hlp h37 hq hlq
+      · rw [toLowerAscii_eq, List.all_map, List.all_eq_true]
+        intro c hc
+        have := List.all_eq_true.1 hall c hc
+        simp only [Function.comp, decide_eq_true_eq] at this ⊢
+        exact (lower_zone c).2.1 this
+    · cases hf
+  · next hnb =>
+    have hnb' : hasPrefix (trimSuffix host [58]) [91] = false := by simpa using hnb
+    have vac : ∀ x : Bytes, hasPrefix x [91] = false → ZH x ∧ B128 x :=
+      fun x hx => ⟨fun h => (by rw [hx] at h; cases h), fun h => (by rw [hx] at h; cases h)⟩
+    split at hf
+    · split at hf
+      · cases hf
+      · cases hf
+      · next ch hch =>
+        have hcp := idna_prefix _ ch hch (splitHostPort_fst_prefix _ hnb')
+        split at hf
+        · cases hf
+          apply vac
+          split
+          · exact prefix_append_colon ch _ hcp
+          · exact hcp
+        · cases hf; exact vac _ hnb'
+    · cases hf; exact vac _ hnb'
+
+theorem fixURL_Z (u u' : URL) (hf : fixURL u = .ok u') (hz : ZH u.host) : ZH u'.host ∧ B128 u'.host := by
+  rw [fixURL_eq] at hf
+  split at hf
+  · cases hf
+  · next h' hh =>
+    cases hf
+    rw [(fixRawQuery_host _).1]
+    exact fixHost_Z _ _ _ hh hz
+
+theorem hwp_prefix_rev (h : Bytes) (hp : hasPrefix (hwp h) [91] = true) : hasPrefix h [91] = true := by
+  obtain ⟨opt, e, _⟩ := hwp_decomp h
+  rw [e]; exact hasPrefix_append_left _ _ hp
+
+theorem zshape_hwp (h : Bytes) (hp : hasPrefix h [91] = true) (hz : ZShape h) :
+    ∃ p q, hwp h = p ++ q ++ [93] ∧ p.all legalB = true ∧ (37 : UInt8) ∉ p ∧ (q = [] ∨ ∃ t, q = 37 :: t) ∧
+      q.all zoneB = true := by
+  obtain ⟨p, q, opt, e, ho, hlp, h37, hq, hlq⟩ := hz
+  have hwp' := zshape_w_prefix p q opt ho (by rw [← e]; exact hp)
+  have := (decomp_port (p ++ q ++ [93]) opt (zshape_goodW p q hwp') ho).2
+  refine ⟨p, q, ?_, hlp, h37, hq, hlq⟩
+  rw [e, show p ++ q ++ 93 :: opt = (p ++ q ++ [93]) ++ opt by simp]; exact this
+
+theorem clearURLPort_Z (u : URL) (hz : ZH u.host) (hb : B128 u.host) :
+    ZH (clearURLPort u).host ∧ B128 (clearURLPort u).host := by
+  show ZH (hostWithoutPort u) ∧ B128 (hostWithoutPort u)
+  rw [hostWithoutPort_eq]
+  constructor
+  · intro hp
+    have hp' := hwp_prefix_rev _ hp
+    obtain ⟨p, q, e, hlp, h37, hq, hlq⟩ := zshape_hwp _ hp' (hz hp')
+    exact ⟨p, q, [], by rw [e], rfl, hlp, h37, hq, hlq⟩
+  · intro hp
+    have hp' := hwp_prefix_rev _ hp
+    rw [List.all_eq_true]
+    intro c hc
+    exact List.all_eq_true.1 (hb hp') c (hwp_sub _ c hc)
+
+theorem clearURLPort_ZH (u : URL) (hz : ZH u.host) : ZH (clearURLPort u).host := by
+  show ZH (hostWithoutPort u)
+  rw [hostWithoutPort_eq]
+  intro hp
+  have hp' := hwp_prefix_rev _ hp
+  obtain ⟨p, q, e, hlp, h37, hq, hlq⟩ := zshape_hwp _ hp' (hz hp')
+  exact ⟨p, q, [], by rw [e], rfl, hlp, h37, hq, hlq⟩
+
+theorem normPort_ZH (u : URL) (hz : ZH u.host) : ZH (normPort u).host := by
+  unfold normPort
+  split
+  · split
+    · exact clearURLPort_ZH u hz
+    · split
+      · exact clearURLPort_ZH u hz
+      · exact hz
+  · exact hz
+
+theorem dropDefaultPort_Z (u : URL) (hz : ZH u.host) (hb : B128 u.host) :
+    ZH (dropDefaultPort u).host ∧ B128 (dropDefaultPort u).host := by
+  unfold dropDefaultPort
+  split
+  · split
+    · exact clearURLPort_Z u hz hb
+    · exact ⟨hz, hb⟩
+  · exact ⟨hz, hb⟩
+
+theorem digits_lt (ds : Bytes) (h : ds.all isDigit = true) : ds.all (· < 128) = true := by
+  rw [List.all_eq_true] at h ⊢
+  intro c hc
+  have := byte_all (fun c => !isDigit c || decide (c < 128)) (by decide +kernel) c
+  simp only [Bool.or_eq_true, Bool.not_eq_true'] at this
+  rcases this with h0 | h0
+  · rw [h c hc] at h0; cases h0
+  · exact h0
+
+theorem setURLPort_Z (u : URL) (v : PortArg) (hz : ZH u.host) (hb : B128 u.host) :
+    ZH (setURLPort u v).host ∧ B128 (setURLPort u v).host := by
+  unfold setURLPort
+  split
+  · exact ⟨hz, hb⟩
+  · split
+    split
+    · exact clearURLPort_Z u hz hb
+    · split
+      · exact ⟨hz, hb⟩
+      · split
+        · exact clearURLPort_Z u hz hb
+        · next portNum _ _ _ _ _ =>
+          show ZH (hostWithoutPort u ++ 58 :: itoa portNum.toNat) ∧ B128 (hostWithoutPort u ++ 58 :: itoa portNum.toNat)
+          rw [hostWithoutPort_eq]
+          have hdig := (itoa_spec portNum.toNat).1
+          have key : hasPrefix (hwp u.host ++ 58 :: itoa portNum.toNat) [91] = true → hasPrefix u.host [91] = true := by
+            intro hp
+            cases hq : hasPrefix (hwp u.host) [91] with
+            | true => exact hwp_prefix_rev _ hq
+            | false => rw [prefix_append_colon _ _ hq] at hp; cases hp
+          constructor
+          · intro hp
+            have hp' := key hp
+            obtain ⟨p, q, e, hlp, h37, hq, hlq⟩ := zshape_hwp _ hp' (hz hp')
+            exact ⟨p, q, 58 :: itoa portNum.toNat, by rw [e]; simp, by rw [validOptionalPort_cons]; exact hdig,
+              hlp, h37, hq, hlq⟩
+          · intro hp
+            have hp' := key hp
+            rw [List.all_append, Bool.and_eq_true]
+            constructor
+            · rw [List.all_eq_true]
+              intro c hc
+              exact List.all_eq_true.1 (hb hp') c (hwp_sub _ c hc)
+            · simp only [List.all_cons, Bool.and_eq_true]
+              exact ⟨by decide, digits_lt _ hdig⟩
+
+theorem normalizeURL_Z (v u' : URL) (h : normalizeURL v = .ok u') (hz : ZH v.host) : ZH u'.host ∧ B128 u'.host := by
+  obtain ⟨_, hf⟩ := normalizeURL_ok v u' h
+  exact fixURL_Z _ _ hf (normPort_ZH v hz)
+
+theorem parseURL_Z (s : Bytes) (b : Bool) (u : URL) (hp : parseURL s b = .ok u) : ZH u.host ∧ B128 u.host := by
+  unfold parseURL at hp
+  split at hp
+  · cases hp
+  · next p hpp =>
+    split at hp
+    · cases hp
+    · exact normalizeURL_Z _ _ hp (Parse_ZH s p hpp)
+
+theorem construct_Z (s : Bytes) (base : Option Bytes) (u : URL) (h : construct s base = .ok u) :
+    ZH u.host ∧ B128 u.host := by
+  unfold construct at h
+  split at h
+  · exact parseURL_Z _ _ _ h
+  · simp only [bind, Except.bind] at h
+    split at h
+    · cases h
+    · next baseU hb =>
+      split at h
+      · cases h
+      · next ref hr =>
+        split at h
+        · exact parseURL_Z _ _ _ h
+        · refine normalizeURL_Z _ _ h ?_
+          show ZH (resolveReference baseU ref).host
+          rcases resolveReference_host baseU ref with e | e | e
+          · rw [e]; exact Parse_ZH _ _ hr
+          · rw [e]; exact ZH_nil
+          · rw [e]; exact (parseURL_Z _ _ _ hb).1
+
+theorem z_step (st st' : St) (op : Op) (hi : ZH st.url.host ∧ B128 st.url.host) (h : step st op = .ok st') :
+    ZH st'.url.host ∧ B128 st'.url.host := by
+  cases op with
+  | set p v =>
+    cases p with
+    | href =>
+      simp only [step, bind, Except.bind, pure, Except.pure] at h
+      generalize hp : parseURL v true = r at h
+      cases r with
+      | error e => cases h
+      | ok u =>
+        simp only [Except.ok.injEq] at h
+        subst h
+        have hu := parseURL_Z _ _ _ hp
+        unfold St.refreshParams
+        split <;> exact hu
+    | protocol =>
+      rcases step_protocol st st' v h with e | ⟨s, u, hf, e⟩
+      · rw [e]; exact hi
+      · subst e
+        have := fixURL_Z _ u hf hi.1
+        exact dropDefaultPort_Z u this.1 this.2
+    | host =>
+      rcases step_host st st' v h with e | ⟨hv, u, hf, e⟩
+      · rw [e]; exact hi
+      · subst e
+        obtain ⟨p, hp, hph, _, _⟩ := validHost_ok2 _ _ hv
+        have hl := ParseRequestURI_ZH _ _ hp
+        rw [hph] at hl
+        have := fixURL_Z _ u hf hl
+        exact dropDefaultPort_Z u this.1 this.2
+    | hostname =>
+      rcases step_hostname st st' v h with e | ⟨hc, hv, u, hf, e⟩
+      · rw [e]; exact hi
+      · subst e
+        obtain ⟨p, hp, hph, _, _⟩ := validHost_ok2 _ _ hv
+        have hl := ParseRequestURI_ZH _ _ hp
+        rw [hph] at hl
+        refine fixURL_Z _ u hf ?_
+        show ZH (if (st.url.port != []) = true then v ++ 58 :: st.url.port else v)
+        split
+        · intro hpre
+          have hvp : hasPrefix v [91] = true := by
+            cases hq : hasPrefix v [91] with
+            | true => rfl
+            | false => rw [prefix_append_colon v _ hq] at hpre; cases hpre
+          obtain ⟨p', q, opt, e, ho, hlp, h37, hq, hlq⟩ := hl hvp
+          have hopt : opt = [] := by
+            rcases validOptionalPort_cases opt ho with e1 | ⟨ds, e1, _⟩
+            · exact e1
+            · exfalso
+              have : (58 : UInt8) ∈ v := by rw [e, e1]; simp
+              simp [this] at hc
+          subst hopt
+          exact ⟨p', q, 58 :: st.url.port, by rw [e]; simp,
+            by rw [validOptionalPort_cons]; exact (portOf_spec _).1, hlp, h37, hq, hlq⟩
+        · exact hl
+    | search =>
+      simp only [step, pure, Except.pure, Except.ok.injEq] at h
+      subst h
+      have : ZH (fixRawQuery { st.url with rawQuery := trimPrefix v [63] }).host ∧
+          B128 (fixRawQuery { st.url with rawQuery := trimPrefix v [63] }).host := by
+        rw [(fixRawQuery_host _).1]; exact hi
+      unfold St.refreshParams
+      split <;> exact this
+    | port =>
+      simp only [step, pure, Except.pure, Except.ok.injEq] at h
+      subst h
+      exact setURLPort_Z _ _ hi.1 hi.2
+    | username | password | pathname | hash =>
+      simp only [step, pure, Except.pure, Except.ok.injEq] at h
+      subst h
+      exact hi
+  | setPort v =>
+    simp only [step, pure, Except.pure, Except.ok.injEq] at h
+    subst h
+    exact setURLPort_Z _ _ hi.1 hi.2
+  | getSP =>
+    simp only [step, pure, Except.pure] at h
+    split at h <;> cases h <;> exact hi
+  | spAppend k v | spDelete k v | spSet k v | spSort =>
+    simp only [step, pure, Except.pure, Except.ok.injEq] at h
+    subst h
+    unfold St.markUpdated
+    split <;> exact hi
+
+theorem z_reach (st : St) (h : Reach st) : ZH st.url.host ∧ B128 st.url.host := by
+  induction h with
+  | ctor s base u hc => exact construct_Z s base u hc
+  | step st st' op _ hs ih => exact z_step st st' op ih hs
+  | read st _ ih =>
+    show ZH st.sync.url.host ∧ B128 st.sync.url.host
+    rw [(sync_url_fields st).1]; exact ih
+
+theorem lay_of_rinv3 (u : URL) (hi : RInv u) (hq : escapeQuery u.rawQuery = u.rawQuery)
+    (hs : validScheme u.scheme = true) (hl : LegalH u.host) (hz : ZH u.host) (hb : B128 u.host) (hr : RawOK u) :
+    Lay u := by
+  refine ⟨hs, hi.lower, fun hne => (hi.opaq hne).1, ?_, hr, hq, ?_⟩
+  · have := cleanPath_form u.path u.scheme
+    rw [hi.path] at this
+    rcases this with h | h
+    · exact Or.inl h
+    · exact Or.inr (cleanForm_shape _ h)
+  · obtain ⟨w, opt, hd, _, _, hbr, _⟩ := hi.host
+    cases hp : hasPrefix u.host [91] with
+    | true =>
+      have hne : (u.host != []) = true := by
+        cases hh : u.host with
+        | nil => rw [hh] at hp; simp [hasPrefix] at hp
+        | cons c t => rfl
+      unfold hostStr
+      rw [if_pos hne]
+      exact parseHost_zone _ hp (hz hp) (hb hp)
+    | false =>
+      unfold hostStr
+      split
+      · exact parseHost_legal _ w opt (hl hp) hp hd
+      · next hne => simp at hne; rw [hne]; exact parseHost_nil
+
+/-- **"href can be parsed again by `new URL()` and yields the same href"**, for every reachable state of the URL
+object (with the repaired `protocol` setter) -/
+theorem reparseStable : ReparseStable := by
+  intro st hr
+  obtain ⟨a, b, _, _, e⟩ := sync_url_fields st
+  have hi := rinv_sync st (rinv_reach st hr)
+  have hq := (qinv_sync st (qinv_reach st hr)).1
+  have hz := z_reach st hr
+  have : ReparseOK st := by
+    apply reparseOK_of st
+    · apply lay_of_rinv3 _ hi hq (by rw [b]; exact scheme_reach st hr) (by rw [a]; exact legalH_reach st hr)
+        (by rw [a]; exact hz.1) (by rw [a]; exact hz.2)
+      unfold RawOK; rw [e]; exact raw_reach st hr
+    · exact normOK_of_rinv _ hi
+  exact this
 
 end GN.Url.Obj
